@@ -6,7 +6,7 @@ from ..common import Violation, Discard, call, mlsub, recorded_warnings
 from ..hyp import drive
 
 RULE = ('Hypothesis label vectors built constructively (1-4 known classes of 1-8 members, 0-5 unknown '
-        'labels in {-1,-2}, drawn permutation, arbitrary non-negative label codes) x n_constraints / '
+        'labels in {-1,-2}, drawn permutation, arbitrary non-negative label codes, a quarter of them neighbouring integers near 2^20..2^62) x n_constraints / '
         'n_chunks / chunk_size / k_genuine / k_impostor in 1..12 x same_length x integer seeds; point '
         'sets for k-NN from a small integer grid (duplicates, distance ties) or continuous. '
         'Non-trivial = >= 2 known classes AND (an unknown label present OR a singleton class OR fewer '
@@ -20,6 +20,10 @@ ASSUMPTIONS = ['tie-tolerant neighbour membership: a returned neighbour may be a
 def label_vector(draw, min_known_classes=1, min_class_size=1, max_classes=4, max_size=8):
   kc = draw(st.integers(min_known_classes, max_classes))
   codes = draw(st.lists(st.integers(0, 9), min_size=kc, max_size=kc, unique=True))
+  if draw(st.integers(0, 3)) == 0:
+    # arbitrary non-negative codes: neighbouring large integers (hashes, ids) up to the int64 range
+    big = 2 ** draw(st.integers(20, 62))
+    codes = [big + c for c in codes]
   sizes = [draw(st.integers(min_class_size, max_size)) for _ in range(kc)]
   unknown = draw(st.lists(st.sampled_from([-1, -2]), min_size=0, max_size=5))
   y = []
